@@ -470,7 +470,7 @@ def coq_ctor_args(c):
     if m[0] == 'bool':
         mt = '(MABool %s)' % cbool(m[1])
     else:
-        mt = '(MAArr %s %s)' % (cnatl(c['_mshape']), cbool(m[2]))
+        mt = '(MAArr %s %s false)' % (cnatl(c['_mshape']), cbool(m[2]))
     on = lambda x: 'None' if x is None else '(Some %d%%nat)' % x      # noqa: E731
     return '(mkargs C%s %s %s %s %s %s %s %s false)' % (
         c['cls'], cnatl(c['_full']), {'float': 'KFloat', 'int': 'KInt', 'bool': 'KBool'}[c['kind']],
